@@ -41,7 +41,7 @@ CLASSES = ["L1Reg", "L1Reg-arr", "L2Reg", "L2Reg-y", "L2Reg-L1", "L2Reg-Box", "L
            "fn-hard_thresh"]
 INPUTS = ["gauss", "gauss-big", "zeros", "boundary", "interior", "ties", "tiny", "huge"]
 PSD_INPUTS = ["sym", "herm", "nonherm", "rankdef", "repeated", "identity", "zero", "psd",
-              "negdef"]
+              "negdef", "psd-plus-skew", "skew", "triangular"]
 
 
 def plan(tier, seed):
@@ -55,11 +55,15 @@ def plan(tier, seed):
             for i in range(reps):
                 P.add("prox", cls=cls, inp=inp, pseed=int(rng.integers(1 << 30)),
                       cplx=bool(rng.random() < 0.6), single=bool(rng.random() < 0.2),
-                      npscalar=bool(rng.random() < 0.25), big=bool(i % 4 == 3))
+                      npscalar=bool(rng.random() < 0.25), big=bool(i % 4 == 3),
+                      scale=(pick(rng, [1e-9, 1e-9, 1e6]) if i % 4 == 2 and inp in (
+                          "gauss", "boundary", "interior", "ties", "sym", "herm", "nonherm",
+                          "psd", "rankdef") else 1.0))
     return P.cases
 
 
 _BIG = [False]
+_SC = [1.0]        # whole-problem scale: data, radii, biases, bounds and l1 weights together
 
 
 def _shape(rng, pow2=False):
@@ -80,16 +84,17 @@ def build(cls, rng, cplx):
     import sigpy as sp
     PR = sp.prox
     dt = np.complex128 if cplx else np.float64
+    S = _SC[0]
     lam = float(10 ** rng.uniform(-3, 2))
-    eps = float(10 ** rng.uniform(-2, 1.5))
+    eps = float(10 ** rng.uniform(-2, 1.5)) * S
     shape = _shape(rng, pow2=(cls == "Unitary-Haar"))
 
     def arr(s=None, d=None):
-        return crandn(rng, s or shape, d or dt)
+        return crandn(rng, s or shape, d or dt) * S
     if cls == "L1Reg":
-        return PR.L1Reg(shape, lam), shape, {"k": "l1", "lam": lam}
+        return PR.L1Reg(shape, lam * S), shape, {"k": "l1", "lam": lam * S}
     if cls == "L1Reg-arr":
-        lamv = np.abs(arr(shape, np.float64)) + 0.01
+        lamv = np.abs(arr(shape, np.float64)) + 0.01 * S
         return PR.L1Reg(shape, lamv), shape, {"k": "l1", "lam": lamv}
     if cls == "L2Reg":
         return PR.L2Reg(shape, lam), shape, {"k": "free"}
@@ -98,7 +103,7 @@ def build(cls, rng, cplx):
     if cls == "L2Reg-L1":
         return PR.L2Reg(shape, lam, y=arr(), proxh=PR.L1Reg(shape, eps)), shape, {"k": "free"}
     if cls == "L2Reg-Box":
-        return PR.L2Reg(shape, lam, y=crandn(rng, shape, np.float64),
+        return PR.L2Reg(shape, lam, y=crandn(rng, shape, np.float64) * S,
                         proxh=PR.BoxConstraint(shape, -eps, eps)), shape, {"k": "real"}
     if cls == "L2Reg-L1Proj":
         return PR.L2Reg(shape, lam, proxh=PR.L1Proj(shape, eps)), shape, {"k": "free"}
@@ -124,8 +129,8 @@ def build(cls, rng, cplx):
         return PR.BoxConstraint(shape, -eps, eps / 2), shape, \
             {"k": "box", "lo": -eps, "hi": eps / 2}
     if cls == "Box-arr":
-        lo = -np.abs(crandn(rng, shape, np.float64))
-        hi = lo + np.abs(crandn(rng, shape, np.float64))
+        lo = -np.abs(crandn(rng, shape, np.float64)) * S
+        hi = lo + np.abs(crandn(rng, shape, np.float64)) * S
         return PR.BoxConstraint(shape, lo, hi), shape, {"k": "box", "lo": lo, "hi": hi}
     if cls == "NoOp":
         return PR.NoOp(shape), shape, {"k": "free"}
@@ -154,11 +159,11 @@ def build(cls, rng, cplx):
                                                      rng.permutation(len(shape))))
         else:
             A = sp.linop.FFT(shape)
-            return PR.UnitaryTransform(PR.Conj(PR.L1Reg(A.oshape, lam)), A), shape, \
+            return PR.UnitaryTransform(PR.Conj(PR.L1Reg(A.oshape, lam * S)), A), shape, \
                 {"k": "free"}
         inner = pick(rng, ["L1Reg", "L2Proj", "LInfProj", "L1Proj"])
         ishape = list(A.oshape)
-        p = {"L1Reg": lambda: PR.L1Reg(ishape, lam), "L2Proj": lambda: PR.L2Proj(ishape, eps),
+        p = {"L1Reg": lambda: PR.L1Reg(ishape, lam * S), "L2Proj": lambda: PR.L2Proj(ishape, eps),
              "LInfProj": lambda: PR.LInfProj(ishape, eps),
              "L1Proj": lambda: PR.L1Proj(ishape, eps)}[inner]()
         return PR.UnitaryTransform(p, A), shape, {"k": "free"}
@@ -174,9 +179,9 @@ def make_input(rng, inp, shape, cplx, info, alpha):
         dt = np.float64
     y = crandn(rng, shape, dt)
     if inp == "gauss":
-        return y * float(10 ** rng.uniform(-1, 1))
+        return y * float(10 ** rng.uniform(-1, 1)) * _SC[0]
     if inp == "gauss-big":
-        return y * 1e3
+        return y * 1e3 * _SC[0]
     if inp == "tiny":
         return y * 1e-9
     if inp == "huge":
@@ -185,7 +190,7 @@ def make_input(rng, inp, shape, cplx, info, alpha):
         return np.zeros(shape, dt)
     ph = y / np.maximum(np.abs(y), 1e-300)
     if inp == "ties":
-        return ph * float(10 ** rng.uniform(-1, 1))          # equal magnitudes everywhere
+        return ph * float(10 ** rng.uniform(-1, 1)) * _SC[0]   # equal magnitudes everywhere
     if k == "l1":
         t = np.broadcast_to(np.asarray(info["lam"]) * alpha, shape)
         if inp == "boundary":                                 # |y_i| = alpha*lam exactly
@@ -234,6 +239,15 @@ def make_psd_input(rng, inp, n, cplx):
         return G @ G.conj().T
     if inp == "negdef":
         return -(G @ G.conj().T) - np.eye(n)
+    if inp == "psd-plus-skew":
+        # not Hermitian, but its Hermitian part is positive semi-definite: the projection is
+        # that Hermitian part, not the matrix itself
+        K = crandn(rng, [n, n], dt)
+        return G @ G.conj().T + (K - K.conj().T)
+    if inp == "skew":
+        return G - G.conj().T
+    if inp == "triangular":
+        return np.triu(G) + np.diag(np.full(n, 3.0 * n)).astype(dt)
     raise ValueError(inp)
 
 
@@ -301,6 +315,7 @@ def run_fn(case, rng):
 def run_case(case):
     rng = np.random.default_rng(case["pseed"])
     _BIG[0] = bool(case.get("big"))
+    _SC[0] = float(case.get("scale", 1.0))
     cls, inp, cplx = case["cls"], case["inp"], case["cplx"]
     if cls.startswith("fn-"):
         return run_fn(case, rng)
@@ -310,7 +325,7 @@ def run_case(case):
     else:
         alpha = float(10 ** rng.uniform(-3, 2))
     if info["k"] == "psd":
-        y = make_psd_input(rng, inp, shape[0], cplx)
+        y = make_psd_input(rng, inp, shape[0], cplx) * _SC[0]
     else:
         y = make_input(rng, inp, shape, cplx, info,
                        alpha if np.ndim(alpha) == 0 else 1.0)
